@@ -355,12 +355,14 @@ impl Display for Tok<'_> {
 pub struct Lexer<'source> {
     inner: SpannedIter<'source, Tok<'source>>,
     comment_depth: usize,
+    /// Where the outermost block comment in progress was opened.
+    comment_opened: std::ops::Range<usize>,
 }
 
 impl<'source> Lexer<'source> {
     /// Create a new lexer for a source string.
     pub fn new(source: &'source str) -> Self {
-        Self { inner: Tok::lexer(source).spanned(), comment_depth: 0 }
+        Self { inner: Tok::lexer(source).spanned(), comment_depth: 0, comment_opened: 0..0 }
     }
 }
 
@@ -372,7 +374,10 @@ impl<'source> Iterator for Lexer<'source> {
             match self.inner.next() {
                 | Some((Ok(Tok::TextLine(_)), _)) => continue,
                 | Some((Ok(Tok::CommentLine(_)), _)) => continue,
-                | Some((Ok(Tok::CommentOpen), _)) => {
+                | Some((Ok(Tok::CommentOpen), range)) => {
+                    if self.comment_depth == 0 {
+                        self.comment_opened = range;
+                    }
                     self.comment_depth += 1;
                     continue;
                 }
@@ -386,6 +391,14 @@ impl<'source> Iterator for Lexer<'source> {
                 }
                 | Some((Ok(_tok), _)) if self.comment_depth > 0 => continue,
                 | Some((Ok(tok), range)) => break Some((range.start, tok, range.end)),
+                | None if self.comment_depth > 0 => {
+                    // The input ended inside a block comment. Everything after the
+                    // opener would silently not be part of the program: hand the
+                    // opener to the parser, which has no production for it.
+                    self.comment_depth = 0;
+                    let range = self.comment_opened.clone();
+                    break Some((range.start, Tok::CommentOpen, range.end));
+                }
                 | _ => break None,
             }
         }
